@@ -213,7 +213,7 @@ theorem names_distinct_plain_ascii (ops : List Op) (st : NState)
     non-ASCII characters are UTF-8 sequences whose lead byte escapes to `$C2` … `$F4`, never decimal.) -/
 theorem render_clash : encodeIdent [120, 16] = [120, 36, 49, 48] ∧ ¬ RenderInj [encodeIdent [120], encodeIdent [120, 16]] := by
   have e1 : encodeIdent [120, 16] = [120, 36, 49, 48] := by
-    rw [encodeIdent]; simp [unreserved, hexU]
+    rw [encodeIdent]; simp [unreserved]
     rw [encodeIdent]; simp [unreserved, hexU]
     rw [encodeIdent]
   have e0 : encodeIdent [120] = [120] := encodeIdent_ascii [120] (by decide)
@@ -235,12 +235,20 @@ def encodeIdent_inj_utf8 (validUtf8 : Name → Prop) : Prop :=
       | .push fn => validUtf8 fn
       | .pop => True) → RenderInj (bases ops)
 
-/-- the hypothesis is satisfiable by a non-trivial history: `x`, `x` again (→ `x$1`), a nested function, `let` (→ `let$1`) -/
-example : ∃ st, runOps false initState [.req [120] false, .req [120] false, .push [102], .req [108, 101, 116] false] = some st ∧
-    RenderInj (bases [.req [120] false, .req [120] false, .push [102], .req [108, 101, 116] false]) := by
-  have hinj := renderInj_ascii [.req [120] false, .req [120] false, .push [102], .req [108, 101, 116] false] (by decide)
-  refine ⟨_, ?_, hinj⟩
-  sorry
+/-- the hypotheses are satisfiable by a non-trivial history: `x`, `x` again, a nested function `f`, `let` -/
+example : RenderInj (bases [.req [120] false, .req [120] false, .push [102], .req [108, 101, 116] false]) := by
+  apply renderInj_ascii
+  intro op hop
+  simp only [List.mem_cons, List.mem_nil_iff, or_false] at hop
+  rcases hop with rfl | rfl | rfl | rfl <;> decide
+
+/-- … and histories do run: the first `x` of a package is called `x` -/
+example : ∃ st, runOps false initState [.req [120] false] = some st ∧ visible st = [[120]] := by
+  have e0 : encodeIdent [120] = [120] := encodeIdent_ascii [120] (by decide)
+  have h0 : rootScope.vars.cnt [120] = 0 := GV.Proofs.Names.rootScope_free [120] (by decide)
+  refine ⟨{ chain := [addLocal rootScope [120] [120]], pkgNames := [] }, ?_, ?_⟩
+  · simp [runOps, stepOp, initState, newVariable, e0, h0, addLocal]
+  · simp [visible, chainLocals, addLocal, rootScope]
 
 end NamesPlain
 
